@@ -268,13 +268,30 @@ func (x *prioExec) injectStop(op POp) {
 		synctest.Wait()
 	}
 	x.stopIssued = true
+	variant := op.N % 4 // 1: two concurrent Stop() calls; 2: Stop + cancel together; after completion every further call must return at once
 	if op.K == "cancel" {
 		x.sys.cancel()
 	} else {
+		var second atomic.Bool
+		second.Store(variant != 1)
+		if variant == 1 {
+			x.wg.Add(1)
+			go func() {
+				defer x.wg.Done()
+				x.sys.stop()
+				second.Store(true)
+			}()
+		}
+		if variant == 2 {
+			x.sys.cancel()
+		}
 		x.wg.Add(1)
 		go func() {
 			defer x.wg.Done()
 			x.sys.stop()
+			for !second.Load() {
+				time.Sleep(time.Nanosecond)
+			}
 			x.stopRet.Store(true)
 		}()
 	}
@@ -323,6 +340,23 @@ func (x *prioExec) injectStop(op POp) {
 		}
 	}
 	x.pull() // what was sent before completion is still an in-order duplicate-free subsequence
+	// once terminated, every further Stop / GracefulStop / cancel returns at once
+	again := make(chan struct{})
+	x.wg.Add(1)
+	go func() {
+		defer x.wg.Done()
+		x.sys.stop()
+		x.sys.graceful()
+		x.sys.cancel()
+		x.sys.stop()
+		close(again)
+	}()
+	select {
+	case <-again:
+		x.res.RepeatedStops++
+	case <-time.After(prioL):
+		x.fail("C16", "repeated-stop-hangs", "after %s had completed, a further Stop() / GracefulStop() / cancel did not return within %s (virtual)", op.K, prioL)
+	}
 	x.res.Terminated = true
 	x.res.TermWay = op.K
 }
